@@ -21,6 +21,13 @@ use sync::*;
 mod network_channel;
 mod topology;
 
+/// Framing over an arbitrary byte stream (verification hook): the functions the multiplexer and
+/// demultiplexer threads call on their TCP stream.
+#[cfg(all(feature = "verif", not(feature = "tokio")))]
+pub(crate) mod verif_framing {
+    pub(crate) use super::remote::{remote_recv, remote_send};
+}
+
 #[derive(Debug, Clone)]
 pub enum NetworkDataIterator<T> {
     Batch(std::vec::IntoIter<T>),
